@@ -1,11 +1,13 @@
 package c06
 
 import (
+	"encoding/json"
 	"flag"
 	"fmt"
 	"net/netip"
 	"strings"
 	"testing"
+	"time"
 
 	"pgregory.net/rapid"
 
@@ -42,18 +44,29 @@ func ipHost(spelled string, port int) Host {
 	return h
 }
 
+// generators built once: StringMatching compiles its expression on every call,
+// which dominated the cost of a shrink candidate.
+var (
+	genHyphenLabel = rapid.StringMatching(`[a-z0-9]{1,4}(-[a-z0-9]{1,4}){1,3}`)
+	genDigitLabel  = rapid.StringMatching(`[0-9]{1,5}`)
+	genPunyTail    = rapid.StringMatching(`[a-z0-9]{2,10}`)
+	genLongLabel   = rapid.StringMatching(`[a-z][a-z0-9]{61}[a-z]`)
+	genShortLabel  = rapid.StringMatching(`[a-z][a-z0-9]{0,9}`)
+	genFreeOrg     = rapid.StringMatching(`[A-Za-z0-9][A-Za-z0-9 .,'&()-]{0,38}[A-Za-z0-9.]`)
+)
+
 func genLabel(t *rapid.T) string {
 	switch rapid.SampledFrom([]string{"short", "short", "short", "hyphen", "digits", "puny", "long"}).Draw(t, "label_style") {
 	case "hyphen":
-		return rapid.StringMatching(`[a-z0-9]{1,4}(-[a-z0-9]{1,4}){1,3}`).Draw(t, "label")
+		return genHyphenLabel.Draw(t, "label")
 	case "digits":
-		return rapid.StringMatching(`[0-9]{1,5}`).Draw(t, "label")
+		return genDigitLabel.Draw(t, "label")
 	case "puny":
-		return "xn--" + rapid.StringMatching(`[a-z0-9]{2,10}`).Draw(t, "label")
+		return "xn--" + genPunyTail.Draw(t, "label")
 	case "long":
-		return rapid.StringMatching(`[a-z][a-z0-9]{61}[a-z]`).Draw(t, "label")
+		return genLongLabel.Draw(t, "label")
 	}
-	return rapid.StringMatching(`[a-z][a-z0-9]{0,9}`).Draw(t, "label")
+	return genShortLabel.Draw(t, "label")
 }
 
 // genDNSName draws a lower-case LDH name of 1..4 labels (<= 253 bytes) that is
@@ -188,7 +201,7 @@ func genHosts(t *rapid.T) []Host {
 				name := base
 				switch rapid.SampledFrom([]string{"plain", "mixed", "mixed", "sibling-sub", "sibling-prefix"}).Draw(t, "dns_variant") {
 				case "mixed":
-					name = mixCase(base, rapid.Uint64().Draw(t, "case_seed"))
+					name = mixCase(base, rapid.Uint64Range(0, 4095).Draw(t, "case_seed"))
 				case "sibling-sub":
 					if len(base)+4 <= 253 {
 						name = "www." + base
@@ -231,7 +244,7 @@ func genOrg(t *rapid.T) string {
 	if rapid.Bool().Draw(t, "org_fixed") {
 		return rapid.SampledFrom([]string{"Martian Proxy", "Acme, Inc.", "Ünïcode Örg ☃", "O=evil,CN=x", "a", "Org/With+Specials=\"q\""}).Draw(t, "org")
 	}
-	return rapid.StringMatching(`[A-Za-z0-9][A-Za-z0-9 .,'&()-]{0,38}[A-Za-z0-9.]`).Draw(t, "org")
+	return genFreeOrg.Draw(t, "org")
 }
 
 // genSNI draws the SNI of a request that falls back to hosts[host]: absent,
@@ -249,7 +262,7 @@ func genSNI(t *rapid.T, hosts []Host, host int, pAbsent int) string {
 	if mode == "same" {
 		if host >= 0 && strings.HasPrefix(hosts[host].Class, "dns") {
 			if rapid.Bool().Draw(t, "sni_recase") {
-				return mixCase(strings.ToLower(hosts[host].Name), rapid.Uint64().Draw(t, "case_seed"))
+				return mixCase(strings.ToLower(hosts[host].Name), rapid.Uint64Range(0, 4095).Draw(t, "case_seed"))
 			}
 			return hosts[host].Name
 		}
@@ -268,7 +281,7 @@ func genSNI(t *rapid.T, hosts []Host, host int, pAbsent int) string {
 	}
 	name := genDNSName(t)
 	if rapid.Bool().Draw(t, "sni_mixed") {
-		name = mixCase(name, rapid.Uint64().Draw(t, "case_seed"))
+		name = mixCase(name, rapid.Uint64Range(0, 4095).Draw(t, "case_seed"))
 	}
 	return name
 }
@@ -391,7 +404,7 @@ var oracleText = "oracle: chain verifies under the CA for the named host (SNI, e
 var propMachine = &kit.Prop[Case]{
 	ID: "C06", Name: "machine",
 	Rule:       "rapid-drawn histories of 1..12 operations (direct GetCertificate, real handshake TLS1.2/1.3, concurrent burst, no-name request) over one mitm.Config with a drawn organization and a pool of 1..3 hosts in 1..3 spellings each (LDH names 1..4 labels, mixed case, IPv4, IPv6 bare / bracketed with port, siblings); " + oracleText + "; non-trivial = IP literal, host:port form, mixed case, cache hit, or concurrency >= 2",
-	Run:        func(c Case) kit.Verdict { return run("machine", c) },
+	Run:        budgeted("machine", 8*time.Second, 45*time.Second),
 	NonTrivial: nonTrivial, Classes: classes,
 	Gates: map[string]float64{"nontrivial": 0.7, "ip-literal": 0.2, "host-port": 0.3, "mixed-case": 0.3, "cache-hit": 0.3, "handshake": 0.4, "sni": 0.4, "no-name": 0.08, "ipv6-bare": 0.03, "ipv6-bracket-port": 0.03, "sni-differs-from-fallback": 0.15},
 	Gen: func(t *rapid.T) Case {
@@ -407,7 +420,7 @@ var propMachine = &kit.Prop[Case]{
 var propExpiry = &kit.Prop[Case]{
 	ID: "C06", Name: "expiry",
 	Rule:       "histories over a mitm.Config with SetValidity(2s): 1..4 requests, a sleep past the NotAfter of everything issued, then the same request again (the cached entry is now invalid; in 2 of 3 cases served by a tls.Config that was built before the sleep) and 0..3 more requests, a concurrent burst, or 1..3 CONNECT tunnels through a real proxy that stay idle past the validity before the ClientHello; thorough: sometimes a second crossing; " + oracleText + "; non-trivial = a request for a host whose cached certificate has expired",
-	Run:        func(c Case) kit.Verdict { return run("expiry", c) },
+	Run:        budgeted("expiry", 6*time.Second, 20*time.Second),
 	NonTrivial: func(c Case) bool { return analyse(c).crossing },
 	Classes:    classes,
 	Gen: func(t *rapid.T) Case {
@@ -461,7 +474,7 @@ var propExpiry = &kit.Prop[Case]{
 var propConcurrent = &kit.Prop[Case]{
 	ID: "C06", Name: "concurrent",
 	Rule:       "0..3 warm-up requests, then 1..3 bursts of 2..12 (thorough 16) goroutines over 1..4 hosts of the pool, each goroutine doing 1..4 direct requests plus 0..40 (RSA authority) / 0..250 (P-256 authority) rounds over a shared sequence of never-seen names (forcing issuance while others ask), or one real handshake, released by a barrier, judged after the burst; " + oracleText + " - for the name each requester asked for; non-trivial = at least 2 goroutines",
-	Run:        func(c Case) kit.Verdict { return run("concurrent", c) },
+	Run:        budgeted("concurrent", 8*time.Second, 45*time.Second),
 	NonTrivial: func(c Case) bool { return analyse(c).conc },
 	Classes:    classes,
 	Gates:      map[string]float64{"nontrivial": 0.9, "handshake": 0.3, "cache-hit": 0.3},
@@ -595,11 +608,52 @@ func timingCases() []Case {
 	return out
 }
 
-// shrink bounds rapid's shrinking of a failing history; kit raises rapid's
-// default to 60 s, which for three failing checks (and histories that sleep)
-// ran a quick run into its deadline instead of reporting after a minute.
-func shrink(quick, thorough string) {
-	flag.Set("rapid.shrinktime", map[bool]string{false: quick, true: thorough}[kit.Thorough()])
+// budgeted wraps run for the rapid-driven checks and bounds what happens after
+// the first failure. kit gives rapid 40 s of shrinking per check; rapid looks
+// at that deadline only between blocks, minimising one 64-bit draw is a binary
+// search of some 50 runs, and a run here costs an RSA key generation (0.15 s idle,
+// 1 s on a loaded machine) or even a sleep - a quick run with three failing
+// checks went to its 240 s deadline that way. Once the budget since the first
+// failure of this check is spent, further shrink candidates are answered
+// "passes" without being run: shrinking just stops improving. During
+// shrinking a history that was already tried is answered from memory, so the
+// case rapid ends up reporting is one that really failed when it was run (the
+// driver's replay step runs it again for real).
+func budgeted(check string, quick, thorough time.Duration) func(Case) kit.Verdict {
+	var (
+		firstFail time.Time
+		memo      = map[string]kit.Verdict{} // shrink phase only: case -> what it did
+	)
+	return func(c Case) kit.Verdict {
+		limit := quick
+		if kit.Thorough() {
+			limit = thorough
+		}
+		raw, _ := json.Marshal(c)
+		if !firstFail.IsZero() {
+			// many shrink candidates decode to a history already tried
+			if v, ok := memo[string(raw)]; ok {
+				return v
+			}
+			if time.Since(firstFail) > limit {
+				return nil
+			}
+		}
+		v := run(check, c)
+		for _, f := range v {
+			if !kit.Known(f.Sig) && firstFail.IsZero() {
+				firstFail = time.Now()
+				// rapid reads this when it starts shrinking, i.e. after the
+				// run that is reporting its first failure right now (kit
+				// sets 40 s at the start of every Check)
+				flag.Set("rapid.shrinktime", limit.String())
+			}
+		}
+		if !firstFail.IsZero() && len(memo) < 4096 {
+			memo[string(raw)] = v
+		}
+		return v
+	}
 }
 
 // ---------------------------------------------------------------- tests
@@ -631,7 +685,6 @@ func TestTiming(t *testing.T) {
 }
 
 func TestMachine(t *testing.T) {
-	shrink("12s", "60s")
 	n := kit.N(60, 200)
 	if kit.Race() {
 		n = kit.N(6, 30)
@@ -640,7 +693,6 @@ func TestMachine(t *testing.T) {
 }
 
 func TestConcurrent(t *testing.T) {
-	shrink("10s", "45s")
 	n := kit.N(25, 120)
 	if kit.Race() {
 		n = kit.N(12, 60)
@@ -649,7 +701,6 @@ func TestConcurrent(t *testing.T) {
 }
 
 func TestExpiry(t *testing.T) {
-	shrink("6s", "20s")
 	n := kit.N(4, 6)
 	if kit.Race() {
 		n = kit.N(1, 3)
